@@ -222,7 +222,8 @@ func (g *c11Gen) action() {
 	}
 }
 
-var c11Faults = []string{"%s[0 - 1]", "%s[%s(%s)]", "%s[%s(%s) + 7]", "%s[0.5]", "%s[nil]", "%s[" + bn.KwTrue + "]", "%s[\"k\"]", "%s[[0]]",
+var c11Faults = []string{"%s[\"1.5\"]", "%s[\"0.5\"] = 1", bn.BRemove + "(%s, \"0.9\")", "%s[\"-1\"]", "%s[\"99\"]", "%s[\"১.৫\"]", "%s[\"1e-1\"]", "%s[\"nan\"]", bn.BRemove + "(%s, \"-0.5\")", "%s[\"-0.5\"] = 1",
+	"%s[0 - 1]", "%s[%s(%s)]", "%s[%s(%s) + 7]", "%s[0.5]", "%s[nil]", "%s[" + bn.KwTrue + "]", "%s[\"k\"]", "%s[[0]]",
 	"%s[0 - 1] = 1", "%s[%s(%s)] = 1", "%s[0.5] = 1", "%s[nil] = 1",
 	bn.BRemove + "(%s, 0 - 1)", bn.BRemove + "(%s, %s(%s))", bn.BRemove + "(%s, 0.5)", bn.BRemove + "(%s, nil)", bn.BRemove + "(%s, \"k\")",
 	bn.BLen + "(5)", bn.BLen + "(nil)", bn.BLen + "(\"abc\")", bn.BLen + "({a: 1})", bn.BPush + "(5, 1)", bn.BPush + "(nil, 1)", bn.BRemove + "(5, 0)", bn.BRemove + "(\"abc\", 0)", "5[0]", "nil[0]", "\"abc\"[0]", "5[0] = 1"}
